@@ -7,6 +7,7 @@ package main
 
 import (
 	"fmt"
+	"os"
 	"go/token"
 	"go/types"
 )
@@ -56,6 +57,13 @@ func init() {
 		})
 	}
 }
+
+// uidFoldEnabled: case folding of a symbolic identifier through its byte
+// decomposition.  Off by default: the linear-integer encoding of 16 bytes did not
+// finish within the solver caps on either back end (probe: > 1 h for the
+// timestamp harnesses); such a call is reported as unsupported (inconclusive)
+// and the concrete alphabet-class harness VF_C15_CompareAlphabet decides it.
+var uidFoldEnabled = os.Getenv("GOSYM_UIDFOLD") == "1"
 
 // uidMapBytes returns the identifier obtained from the symbolic 16-byte
 // identifier u by adding delta to every byte in [lo, hi] (strings.ToLower /
